@@ -14,7 +14,7 @@ private def G : Bytes := ['G', 'E', 'T']
 private def yes : Nat → Bytes → Bool := fun _ _ => true
 /-- a hash that separates the few keys of the probes -/
 private def h (b : Bytes) : Nat := b.foldl (fun a c => a * 257 + c.toNat) 7
-private def reg (p : Bytes) : Reg := ⟨G, [], p, []⟩
+private def reg (p : Bytes) : Reg := ⟨G, [], p, [], none⟩
 private def ranOf (script : List Reg) (path : Bytes) : Option Nat :=
   (serveCompiled h yes ⟨true, 0, 0, false, none⟩ script false ⟨G, path, []⟩).ran
 
